@@ -557,6 +557,38 @@ func checkC13(c *Ctx) {
 				if len(lf.Path) == 1 && c.R.Chance(1, 8) {
 					m[lf.Path[0]] = map[string]interface{}{"k": 1, "n": map[string]interface{}{"z": 2.5}}
 				}
+				if lf.T == NCmp && strings.HasSuffix(lf.Lit.Kind, "list") && c.R.Chance(1, 3) {
+					// a typed slice of many elements in no particular order where a list literal is compared: a set
+					// operation that sorts or de-duplicates in place would reorder the caller's slice
+					var v interface{}
+					k := 13 + c.R.Intn(40)
+					switch lf.Lit.Kind {
+					case "ilist":
+						x := make([]int, k)
+						for j := range x {
+							x[j] = (j*7919 + 907) % 1000
+						}
+						v = x
+					case "dlist":
+						x := make([]float64, k)
+						for j := range x {
+							x[j] = float64((j*7919+907)%1000) / 4
+						}
+						v = x
+					default:
+						x := make([]string, k)
+						for j := range x {
+							x[j] = fmt.Sprintf("s%03d", (j*7919+907)%1000)
+						}
+						v = x
+					}
+					if len(lf.Path) == 1 {
+						m[lf.Path[0]] = v
+					} else if sub, ok := m[lf.Path[0]].(map[string]interface{}); ok && len(lf.Path) == 2 {
+						sub[lf.Path[1]] = v
+					}
+					c.count("long_unordered_typed_slice_at_a_list_comparison")
+				}
 				if c.R.Chance(1, 10) {
 					// byte slices (their backing array belongs to the caller), also at the end of a nested path
 					bs := []byte(pick(c.R, []string{"Bearer ABC", "ABC", "1.2.3", "Straße", "X"}))
